@@ -180,3 +180,114 @@ def E_truth(v):
 _equiv_contract("is_same", lambda same, compl: same, "is_same(a,b) iff from ends equal, to ends equal and overlaps equal")
 _equiv_contract("is_complement", lambda same, compl: compl, "is_complement(a,b) iff a.from_end = b.to_end, a.to_end = b.from_end and a.overlap = complement(b.overlap)")
 _equiv_contract("is_eql", lambda same, compl: z3.Or(same, compl), "is_eql(a,b) iff is_same or is_complement: a link and its complement are one edge")
+
+
+# ---------------------------------------------------------------------------------------- C12: compatibility of a stored link with a request
+class _Fn:
+    def __init__(self, f):
+        self.f = f
+
+    def pyvc_call(self, E, pos, kw, st):
+        yield ("val", self.f(*pos), st)
+
+
+class _OrientedSym:
+    """an oriented segment; == is the symbolic relation given by the case, inverted() another such value"""
+    def __init__(self, name, eqs, inv=None):
+        self.name, self.eqs, self.inv = name, eqs, inv
+
+    def pyvc_eq(self, E, other):
+        key = frozenset([self.name, other.name])
+        if key not in self.eqs:
+            raise Unsupported("== between %s and %s" % (self.name, other.name))
+        return self.eqs[key]
+
+    def pyvc_attr(self, E, attr, st):
+        if attr == "inverted" and self.inv is not None:
+            yield ("val", _Fn(lambda: self.inv), st)
+        else:
+            raise Unsupported("%s.%s" % (self.name, attr))
+
+
+class _OverlapSym(_OrientedSym):
+    """an overlap: false as a Boolean iff it is empty (a placeholder or an empty CIGAR); complement() another such value"""
+    def __init__(self, name, eqs, nonempty, compl=None):
+        _OrientedSym.__init__(self, name, eqs)
+        self.nonempty, self.compl = nonempty, compl
+
+    def pyvc_truth(self, E):
+        return self.nonempty
+
+    def pyvc_attr(self, E, attr, st):
+        if attr == "complement" and self.compl is not None:
+            yield ("val", _Fn(lambda: self.compl), st)
+        else:
+            raise Unsupported("%s.%s" % (self.name, attr))
+
+
+def _compat_setup(ctx):
+    g = ctx.gfapy
+    sy = dict(from_eq=z3.Bool("self_from_eq_request_from"), to_eq=z3.Bool("self_to_eq_request_to"),
+              to_eq_inv_from=z3.Bool("self_to_eq_inverted_request_from"), from_eq_inv_to=z3.Bool("self_from_eq_inverted_request_to"),
+              self_ov=z3.Bool("self_overlap_specified"), req_ov=z3.Bool("request_overlap_specified"),
+              ov_eq=z3.Bool("self_overlap_eq_request_overlap"), ov_eq_c=z3.Bool("self_overlap_eq_complement_of_request_overlap"))
+    eqs = {frozenset(["self.from", "req.from"]): sy["from_eq"], frozenset(["self.to", "req.to"]): sy["to_eq"],
+           frozenset(["self.to", "inv(req.from)"]): sy["to_eq_inv_from"], frozenset(["self.from", "inv(req.to)"]): sy["from_eq_inv_to"],
+           frozenset(["self.ov", "req.ov"]): sy["ov_eq"], frozenset(["self.ov", "compl(req.ov)"]): sy["ov_eq_c"]}
+    sf, stv = _OrientedSym("self.from", eqs), _OrientedSym("self.to", eqs)
+    rf = _OrientedSym("req.from", eqs, inv=_OrientedSym("inv(req.from)", eqs))
+    rt = _OrientedSym("req.to", eqs, inv=_OrientedSym("inv(req.to)", eqs))
+    # the complement of an unspecified overlap is unspecified, of a specified one specified (CIGAR.complement / Placeholder.complement contracts)
+    sov = _OverlapSym("self.ov", eqs, sy["self_ov"])
+    rov = _OverlapSym("req.ov", eqs, sy["req_ov"], compl=_OverlapSym("compl(req.ov)", eqs, sy["req_ov"]))
+    link = Obj(g.line.edge.Link, "self")
+    heap = {link.oid: {"oriented_from": sf, "oriented_to": stv, "overlap": sov}}
+    direct = z3.And(sy["from_eq"], sy["to_eq"], z3.Or(z3.Not(sy["self_ov"]), z3.Not(sy["req_ov"]), sy["ov_eq"]))
+    compl = z3.And(sy["to_eq_inv_from"], sy["from_eq_inv_to"], z3.Or(z3.Not(sy["self_ov"]), z3.Not(sy["req_ov"]), sy["ov_eq_c"]))
+    return link, heap, (rf, rt, rov), sy, direct, compl
+
+
+def _compat_contract(name, docstr):
+    class CC(Contract):
+        id = "Link_" + name
+        fn = "gfapy/line/edge/link/equivalence.py::Equivalence." + name
+        props = ("C12", "C14")
+        doc = docstr
+
+        def cases(self, ctx):
+            g = ctx.gfapy
+            link, heap, (rf, rt, rov), sy, direct, compl = _compat_setup(ctx)
+            allow = z3.Bool("allow_complement")
+            models = {}
+            if name == "is_compatible":
+                models[g.Alignment] = const_model(lambda *a, **k: a[0])          # Alignment(x, valid=True) of an alignment is that alignment
+                models[ctx.fn("gfapy/line/edge/link/equivalence.py::Equivalence.is_compatible_direct")] = const_model(lambda s_, a, b, c: direct)
+                models[ctx.fn("gfapy/line/edge/link/equivalence.py::Equivalence.is_compatible_complement")] = const_model(lambda s_, a, b, c: compl)
+                want = z3.Or(direct, z3.And(allow, compl))
+                args = [link, rf, rt, rov, allow]
+            else:
+                want = direct if name.endswith("direct") else compl
+                args = [link, rf, rt, rov]
+            def post(k, v, st):
+                if k != "return":
+                    return z3.BoolVal(False)
+                return ctx_truth(v) == want
+            symbols = dict(sy); symbols["allow_complement"] = allow
+            return [Case("request", args, post, heap=heap, symbols=symbols, models=models,
+                         replay=lambda w: {"target": "bounded.replay_helpers:link_compatibility_cases"}, confirm=battery_confirm)]
+    CC.__name__ = CC.id
+    return register(CC)
+
+
+def ctx_truth(v):
+    if isinstance(v, bool):
+        return z3.BoolVal(v)
+    if hasattr(v, "pyvc_truth"):
+        return v.pyvc_truth(None)
+    return v
+
+
+_compat_contract("is_compatible_direct", "the link goes from the first oriented segment to the second, and the overlaps agree unless one of them is unspecified")
+_compat_contract("is_compatible_complement", "the COMPLEMENT of the link goes from the first oriented segment to the second (its to = the inverted from, its from = the inverted to), "
+                 "and its overlap is the complement of the requested one unless one of the two is unspecified — an unspecified overlap on either side matches")
+_compat_contract("is_compatible", "direct compatibility, or (if allowed) compatibility of the complement")
